@@ -12,6 +12,29 @@ TRUST = ("Trusted: Coq 8.16.1 kernel (full .vo build), extraction with ExtrOcaml
          "working tree on every run. ")
 
 CHECKS = {
+    "C15": dict(
+        text="Proof (partial, with refutations) over an L2 object state machine (25 fields with kind/shape/provenance, "
+             "one step per public method, partial effects of failed calls kept): every field a call reads is serialised "
+             "except _source (refuted: direct-sound collect after restore, known finding); for every well-kinded state "
+             "restore(save s) is Ok with s' ~ s and eq true exactly when check() accepts s, and raises that error "
+             "otherwise (two reachable refused classes are witnessed: partial materials, stale cache -- known findings); "
+             "~ is a bisimulation for the setters and round trips (by induction over op lists). The correspondence runs "
+             "random op sequences on the real object and compares presence/kind/shape/exception class and provenance-equal "
+             "=> bit-identical arrays; twin tests finish the pipeline on original and restored object.",
+        note=TRUST + "NOT carried: bisimulation for bake/init_source/exchange/collect (twin test + correspondence "
+             "only), preservation of the kind invariant, the Kang round trip (implementation test only).",
+        technique="Coq proof over an abstract object state machine + op-sequence correspondence", ref="5/C15"),
+    "C16": dict(
+        text="Proof (partial, with refutations) over the same L2 model: the provenance of baked factors / initial energy "
+             "depends on the table list and index only through the per-wall resolution (overwritten tables and setter "
+             "order vanish); bake, exchange(recalculate) and set_air_attenuation are idempotent (Leibniz equality of the "
+             "state). Refuted with witnesses (known findings): default-BRDF install by init_source_energy changes a "
+             "re-bake, stale tables of another direction count break bake, from_dict aliases the caller's direction "
+             "lists. The check compares every history with the canonical history of its effective configuration, all "
+             "setter permutations, repeated stages, and deep-copies every caller-owned object around every call.",
+        note=TRUST + "NOT carried: final-configuration theorem over ALL histories (resolution lemma + instance + "
+             "harness comparison only), idempotence of init_source, the frame property (aliasing is observed, not proved).",
+        technique="Coq proof over an abstract object state machine + op-sequence correspondence", ref="5/C16"),
     "C17": dict(
         text="Proof (partial): translating scene, source and receivers leaves baked factors, slot maps, delays, initial "
              "energies, patch histograms, patch-wise and mono curves of the executable model IDENTICAL (everything depends "
